@@ -188,6 +188,14 @@ func c19Kinds() []c19Kind {
 			t := w.appCall(w.accts[1].addr, w.box, w.minFee(), w.rnd, "create", "noref")
 			return &t
 		}},
+		{name: "box-over-budget", want: "budget", mk: func(w *c19World) *transactions.Transaction {
+			// one box reference pays for BytesPerBoxReference bytes; the application creates a larger box
+			w.boxCtr++
+			name := fmt.Sprintf("big%d-%d", w.rnd, w.boxCtr)
+			t := w.appCall(w.accts[1].addr, w.box, w.minFee(), w.rnd, "big", name)
+			t.Boxes = []transactions.BoxRef{{Index: 0, Name: []byte(name)}}
+			return &t
+		}},
 		{name: "lease-clash", want: "lease", mk: func(w *c19World) *transactions.Transaction {
 			if len(w.leases) == 0 {
 				return nil
@@ -338,7 +346,7 @@ func c19Pos(n, pos int) string {
 func TestVerifC19Atomic(t *testing.T) {
 	c := kit.Start(t, "C19", "atomic")
 	defer c.Finish()
-	c.Rule("per case a ledger (Future / v41 / v40) with funded accounts, an asset (holders, a frozen holder, a non-holder), a rekeyed account, an account at its minimum balance and four applications (global counter that can reject / err / loop, boxes, inner payment + inner application call chain); per block evaluator A receives ~40 groups: good groups of 1..16 members and, between them, failing groups of 1..16 members where the member at the first / a middle / the last position fails for one of 22 reasons (authorizer after rekey, wrong AuthAddr, overspend, min-balance dip, asset not opted in, frozen, program rejects, err, budget, inner failure deep in a call chain after inner payments succeeded, inner fee shortfall, box without reference, lease clash, duplicate, malformed, expired, pooled fee one microalgo short, zero / inconsistent / incomplete / absent group id, tracer panics before the commit point); twin B receives only the good groups; distinct = (protocol, reason, position) of failing groups that really failed")
+	c.Rule("per case a ledger (Future / v41 / v40) with funded accounts, an asset (holders, a frozen holder, a non-holder), a rekeyed account, an account at its minimum balance and four applications (global counter that can reject / err / loop, boxes, inner payment + inner application call chain); per block evaluator A receives ~40 groups: good groups of 1..16 members and, between them, failing groups of 1..16 members where the member at the first / a middle / the last position fails for one of 23 reasons (authorizer after rekey, wrong AuthAddr, overspend, min-balance dip, asset not opted in, frozen, program rejects, err, budget, inner failure deep in a call chain after inner payments succeeded, inner fee shortfall, box without reference, box larger than the reference budget, lease clash, duplicate, malformed, expired, pooled fee one microalgo short, zero / inconsistent / incomplete / absent group id, tracer panics before the commit point); twin B receives only the good groups; distinct = (protocol, reason, position) of failing groups that really failed")
 	c.Assume("the fingerprint covers the BlockEvaluator and its pending roundCowState reachable by reflection, except the read caches of roundCowBase, the ledger handle, tracer and constant protocol parameters")
 	cvs := []protocol.ConsensusVersion{protocol.ConsensusFuture, protocol.ConsensusV41, protocol.ConsensusV40}
 	ncases := c.N(8, 220)
